@@ -6,12 +6,50 @@ props = [json.loads(l) for l in open(os.path.join(ROOT, 'properties.jsonl'))]
 ids = [p['id'] for p in props]
 
 # id -> (engine, level category, technique, level text, level note, design ref)
+T_BX = 'bounded-exhaustive enumeration of a finite input universe on the real code (explicit-state, no sampling), '
 CHECKS = {
- 'C02': ('BX', 'model_checking',
-   'bounded-exhaustive enumeration of all pattern bodies x anchor modes x URL universe on the real matcher, compared with an independent reference matcher',
-   'Every pattern body up to length 6 (quick) / 7 (thorough) over {a,b,.,/,*,^} in all six anchor modes is parsed by the real parser and matched by the real matcher against every URL of a universe built to make the anchor text collide (repeated, prefix, suffix, userinfo); each verdict is compared with a 100-line reference written from the property text; weakening relations and a curated full-regex universe are added. Exhaustive within the bound, no sampling.',
-   'Reference matcher is trusted (calibrated: agrees with the real matcher on everything outside the recorded defect D2). regex crate trusted for full-regex rules. Spellings the property leaves open are executed but not compared (Unspecified).',
-   'DESIGN §4 C02'),
+ 'C01': ('BX', 'model_checking', T_BX + 'differential against the public per-rule matcher + independent precedence combiner',
+   'All ordered lists of <= 2 (quick) / <= 3 (thorough) rules of a 50-rule alphabet (one rule per shortcut of the token index) are built into real engines and queried with a request universe in which every rule token occurs as whole token, proper suffix, proper prefix, first and last; every verdict field is compared with rule-by-rule evaluation. Exhaustive within the bound.',
+   'Per-rule match is taken from the real NetworkFilter::matches (its correctness is C02/C03); combiner, redirect, removeparam and CSP references are independent. seahash collision freedom checked for the alphabet.', 'DESIGN §4 C01'),
+ 'C02': ('BX', 'model_checking', T_BX + 'compared with an independent reference pattern matcher',
+   'Every pattern body up to length 6 (quick) / 7 (thorough) over {a,b,.,/,*,^} in all six anchor modes is parsed by the real parser and matched by the real matcher against every URL of a universe built to make the anchor text collide (repeated, prefix, suffix, userinfo); each verdict is compared with a 100-line reference written from the property text; weakening relations and a curated full-regex universe are added.',
+   'Reference matcher trusted (calibrated: agrees with the real matcher on everything outside the recorded defect D2). regex crate trusted for full-regex rules. Spellings the property leaves open are executed but not compared.', 'DESIGN §4 C02'),
+ 'C03': ('BX', 'model_checking', T_BX + 'compared with an independent option predicate over an option AST',
+   'The whole type x party x scheme cube (every purely positive / purely negated type list, document, 7 party spellings, exception, important, scheme-pinned forms) and the domain-list x initiator cube are enumerated against all request type strings, schemes and initiators, at the matcher and on single-rule engines.',
+   'Mixed positive+negated type lists, positive domain= with absent initiator, |ws:// vs wss:// are Unspecified.', 'DESIGN §4 C03'),
+ 'C04': ('BX', 'model_checking', T_BX + 'precedence reference + monotonicity relation + alias-normalising badfilter oracle',
+   'Every base list x extra rule x insertion position (two real engines each) is checked for blocked==spec and both monotonicity implications; every ordered pair of 188 rule spellings is checked for badfilter cancellation against an oracle that normalises aliases and option order.',
+   'Tag differences between a rule and its badfilter twin, and semantically-equal-but-textually-different type lists, are outside the domain.', 'DESIGN §4 C04'),
+ 'C05': ('BX', 'model_checking', T_BX + 'differential between three configurations of the real code (optimised at build, unoptimised, optimize() on the live blocker)',
+   'All ordered lists <= 2 / unordered lists of 3 (quick; +1 thorough) over a 40-rule alphabet whose rules share buckets and differ in one fusion-relevant attribute, under every tag subset, against 240 requests.',
+   'The unoptimised engine is the reference (its own correctness is C01).', 'DESIGN §4 C05'),
+ 'C06': ('HX', 'model_checking', 'exhaustive enumeration of operation histories up to a depth on fresh real subjects under a deterministic LIFO allocator, step-by-step comparison with a freshly built engine for the model state',
+   'Three scenarios (tags + regex cache + serialisation on an Engine; add_filter + optimize on a Blocker; cosmetic + scriptlet resources); every history of depth 5/4/5 (quick) or 6/5/6 (thorough) whose last operation is a query is executed; environment answers (cleanup timer fired, regex discarded) are operations of the alphabet.',
+   'Hash-map iteration order inside the engine is not controlled; violating histories are re-executed twice and under a never-reuse allocator.', 'DESIGN §4 C06'),
+ 'C07': ('BX+HX', 'model_checking', 'exhaustive enumeration of rule subsets x tag sets and of tag-operation histories on real engines, compared with a set-algebra model and a tag-stripped reference engine',
+   'All 512 subsets of a 9-rule pool x optimise x 8 tag sets; all sequences of <= 3 (quick) / 4 (thorough) of 28 tag/deserialize operations on 4 lists; tag_exists after every step, full battery at the end.',
+   'The tag-stripped reference engine is built by the same crate (differential).', 'DESIGN §4 C07'),
+ 'C11': ('BX', 'model_checking', T_BX + 'totality (no panic) + differential (list vs list minus rejected lines; hosts line vs ||host^)',
+   'Every string of <= 4 (quick) / 5 (thorough) symbols over a 22-symbol structural alphabet through all parser entry points, the single-edit neighbourhood of 145 real rule spellings, metadata cut-off alignments, line independence on all lists of <= 3/4 good+junk lines, hosts-format equivalence, rule-type options.',
+   'css-validation feature is off, as in the baseline configuration.', 'DESIGN §4 C11'),
+ 'C13': ('BX', 'model_checking', T_BX + 'compared with the redirect selection rule written from the property text (set-valued on ties)',
+   'All ordered lists of <= 3 rules (thorough: + lists of 4 starting with an a-spelling) of a 48-rule redirect alphabet (every resource kind, priority spelling, exceptions) x two resource stores x 5 requests.',
+   'Exception naming the same resource with a different priority suffix, and whether a redirect exception unblocks, are Unspecified.', 'DESIGN §4 C13'),
+ 'C14': ('BX', 'model_checking', T_BX + 'byte-for-byte comparison with an independent query-string surgery reference',
+   'URL = fixed prefix + every string of length <= 6 (quick) / 8 (thorough) over {?,#,&,=,a,b,e-acute} x every set of <= 2/3 rules of a 7-rule pool x 5 request types x 2 initiators.',
+   'Per-rule applicability from the real matcher (differential).', 'DESIGN §4 C14'),
+ 'C15': ('BX', 'model_checking', T_BX + 'compared with CSP set algebra written from the property text; all list orders enumerated',
+   'All ordered lists of <= 3 (quick) / 4 (thorough) rules of a 24-rule csp alphabet, every tag subset, 8 URLs x all 19 request-type strings.',
+   'Per-rule applicability from the real matcher (differential).', 'DESIGN §4 C15'),
+ 'C17': ('BX', 'model_checking', T_BX + 'compared with an independent CSS-identifier key reference; partition check',
+   'All subsets of <= 3 (quick) / 4 (thorough) of a 66-selector alphabet (prefix/extension names, escapes, hex escapes, non-ASCII), each engine queried with every subset of <= 2 names as classes, as ids and of exceptions.',
+   'Malformed escapes are outside the domain (executed, must not panic).', 'DESIGN §4 C17'),
+ 'C19': ('SX+BX', 'model_checking', 'stateless DFS over thread interleavings of the real Sync build with iterative preemption bounding (CHESS-style), blocking decided by the real Mutex::try_lock through a cfg-guarded seam; plus cross-configuration differential',
+   'Five thread plans (2x2, 3x1, 3x2, 2x3, mixed) of real OS threads on one shared engine, all schedules with <= 2 (quick) / <= 3-4 (thorough) preemptions; every answer compared with the sequential answer; deadlock, panic and poisoning detected; every violating schedule replayed twice. The single-thread build writes answer hashes for 2 551 rule lists, the thread-safe build recomputes them.',
+   'No preemption between scheduling points (sound if nothing shared is mutated outside the lock: checked by a non-exhaustive free-running Miri pass in the thorough tier). Weak memory not modelled.', 'DESIGN §4 C19, §5'),
+ 'C20': ('BX', 'model_checking', T_BX + 'post-conditions on every emitted rule (ASCII, Safari regex-subset recogniser, ordering, filters_used) + inclusion against the real matcher',
+   'Every pattern body of <= 6 (quick) / 7 (thorough) symbols x anchor modes x option frames as singleton sets, the single-edit neighbourhood of a 135-rule alphabet, and all ordered lists of <= 2/3 alphabet rules.',
+   'Order of filters_used is compared as a multiset (network rules are always reported before cosmetic ones).', 'DESIGN §4 C20'),
 }
 NOT_APPLICABLE = {}
 
@@ -44,7 +82,7 @@ manifest = {
    'add_only': True,
  },
  'engines': [
-   {'name': 'BX', 'path': 'harness/src/core.rs', 'serves_properties': [i for i in ids if i in CHECKS and CHECKS[i][0].startswith('BX')], 'kind_free_text': 'bounded-exhaustive differential explorer: mixed-radix enumeration of finite input universes on the real code, 16 worker threads, reference model or differential oracle per case'},
+   {'name': 'BX', 'path': 'harness/src/core.rs', 'serves_properties': [i for i in ids if i in CHECKS and 'BX' in CHECKS[i][0]], 'kind_free_text': 'bounded-exhaustive differential explorer: mixed-radix enumeration of finite input universes on the real code, 16 worker threads, reference model or differential oracle per case'},
    {'name': 'HX', 'path': 'harness/src/hx.rs', 'serves_properties': [i for i in ids if i in CHECKS and 'HX' in CHECKS[i][0]], 'kind_free_text': 'history explorer: DFS over all operation sequences up to a depth on fresh real engines, step-by-step comparison with a reference model; deterministic LIFO allocator'},
    {'name': 'SX', 'path': 'harness/src/sx.rs', 'serves_properties': [i for i in ids if i in CHECKS and 'SX' in CHECKS[i][0]], 'kind_free_text': 'schedule explorer: stateless DFS over thread interleavings of the real Sync build with iterative preemption bounding, blocking decided by the real Mutex::try_lock'},
    {'name': 'FX', 'path': 'harness/src/fx.rs', 'serves_properties': [i for i in ids if i in CHECKS and 'FX' in CHECKS[i][0]], 'kind_free_text': 'fault enumerator: every prefix / bit flip / structural substitution of valid serialized buffers, loaded in child processes under an allocation ceiling'},
